@@ -38,6 +38,8 @@ struct Cut {
   // optional generated-program object (constant-operand call shapes, C01.const): cutk_<cfg>.so next to --kdir
   struct KEntry { const char* name; int64_t k; int shape; cut_fn fn; };
   const KEntry* ktable = nullptr; int nk = 0;
+  struct PEntry { const char* postfix; int kind; int64_t (*fn)(int64_t, int64_t, int64_t, int64_t*); };
+  const PEntry* ptable = nullptr; int np = 0; const int64_t* kconsts = nullptr; int nkc = 0;
   int (*ub_count)() = nullptr;
   const CutUbEvent* (*ub_events)() = nullptr;
   void (*ub_reset)() = nullptr;
@@ -101,13 +103,25 @@ static inline bool cut_load_k(Cut& c, const std::string& kdir, std::string& err)
   if (!h) { err = dlerror(); return false; }
   auto tab = (const Cut::KEntry* (*)(int*))dlsym(h, "cutk_table");
   if (!tab) { err = "missing cutk_table in " + path; return false; }
-  c.ktable = tab(&c.nk); return true;
+  c.ktable = tab(&c.nk);
+  auto ptab = (const Cut::PEntry* (*)(int*))dlsym(h, "cutp_table"); auto kc = (const int64_t* (*)(int*))dlsym(h, "cutk_consts");
+  if (ptab && kc) { c.ptable = ptab(&c.np); c.kconsts = kc(&c.nkc); }
+  return true;
 }
 static inline CallResult cut_call_k(const Cut& c, int idx, int64_t a)
 {
   CallResult r{0, 0};
   int j = sigsetjmp(g_jb, 0);
   if (j == 0) { g_in_call = 1; r.v = c.ktable[idx].fn(a, 0, 0); g_in_call = 0; }
+  else { g_in_call = 0; r.trap = j; }
+  return r;
+}
+struct ProgResult { int64_t v; int64_t flag; int trap; };
+static inline ProgResult cut_call_p(const Cut& c, int idx, int64_t a, int64_t b, int64_t cc)
+{
+  ProgResult r{0, 0, 0};
+  int j = sigsetjmp(g_jb, 0);
+  if (j == 0) { g_in_call = 1; r.v = c.ptable[idx].fn(a, b, cc, &r.flag); g_in_call = 0; }
   else { g_in_call = 0; r.trap = j; }
   return r;
 }
